@@ -65,6 +65,13 @@ ASSUMPTIONS = [
 ]
 TRUSTED = ["harness/p11emu.py token emulator"]
 
+# work package B1: parse_hsmconfig / load_hsmconfig / find_key_by_id / the name filter (own driver, own module)
+import corr_C15_hsmconfig as HC  # noqa: E402
+
+EXTRA_DRIVERS = ["kskm_driver_hsmcfg"]
+ASSUMPTIONS += HC.ASSUMPTIONS
+TRUSTED += HC.TRUSTED
+
 
 def mk_cfg(mods: list[dict[str, Any]], env: dict[str, str] | None = None) -> Any:
     hsm = {}
@@ -590,11 +597,15 @@ def run(tier: str, driver_ok: bool) -> Result:
     msg_lens = [0, 1, 55, 56, 64, 119, 120, 300]
     for alg in AlgorithmDNSSEC:
         for on_hsm in (False, True, None):
-            for bits in sizes if alg.value in (5, 8, 10) else [0]:
+            # bits < 0: the (-bits - 1)-th fixture whose modulus has a clear top bit (2047 / 3070 bits in 256 / 384 octets) — the
+            # block handed to the token is as long as the modulus in OCTETS, which is not bit_length // 8 for these keys
+            for bits in (sizes + [-1 - i for i in range(len(K.rsa_keys_topclear()))]) if alg.value in (5, 8, 10) else [0]:
                 for ml in (msg_lens if tier == "thorough" else r.sample(msg_lens, 3)):
                     msg = r.randbytes(ml)
                     if alg.value in (13, 14):
                         tk = K.ec_keys("P-256" if alg.value == 13 else "P-384")[1]
+                    elif bits < 0:
+                        tk = K.rsa_keys_topclear()[-bits - 1]
                     elif bits:
                         tk = r.choice(K.rsa_keys(bits))
                     else:
@@ -905,6 +916,9 @@ def run(tier: str, driver_ok: bool) -> Result:
         lines.append({"op": "env_cycle", "env": [{"k": k, "v": v} for k, v in base.items()], "hsmEnv": [{"k": k, "v": v} for k, v in henv.items()]})
         checks.append({"case": case, "what": "env_cycle", "before": before, "during": want_during})
 
+    # ---- (f) the rest of misc/hsm.py (hsmconfig files, find_key_by_id, name filter): harness/corr_C15_hsmconfig.py --
+    HC.run_stream(res, tier, driver_ok)
+
     # ---- model -----------------------------------------------------------------------------------------
     if driver_ok:
         outs = lib.run_driver(lines, exe=DRIVER)
@@ -937,6 +951,9 @@ def replay(obj: dict[str, Any]) -> Any:
     v = obj.get("violation") or obj.get("disagreement") or {}
     c = v.get("case") or {}
     out: dict[str, Any] = {"recorded": obj}
+    if isinstance(c, dict) and "hsmconfig" in c:
+        out["now"] = HC.replay_case(c)
+        return out
     if isinstance(c, dict) and c.get("via") == "get_p11_key" and ("ec_point_string" in c or "ec_point" in c):
         import PyKCS11.LowLevel as LL
 
